@@ -150,3 +150,18 @@ def validate(events, workdir, tag, spec="Trace", heap="8g", timeout=1800):
     summary["tlc_states"] = int(m.group(2)) if m else 0
     summary["tlc_wall"] = time.time() - t0
     return summary, lines[1:]
+
+
+def read_basis_file(path):
+    """tokenise a basis file: list of {t, c, r} records between NAME and ENDATA (trusted lexer)"""
+    out = []
+    try:
+        with open(path, errors="replace") as f:
+            for line in f:
+                tk = line.split()
+                if not tk or tk[0] in ("NAME", "ENDATA"):
+                    continue
+                out.append(dict(t=tk[0], c=tk[1] if len(tk) > 1 else "", r=tk[2] if len(tk) > 2 else ""))
+    except OSError:
+        return [dict(t="UNREADABLE", c="", r="")]
+    return out
